@@ -27,7 +27,7 @@ ASSUMPTIONS = ['pysam BAM writing/reading is the storage; its own refusal of nam
                'expected field values come from the raw reads through the hand-written layout table and the independent 52-letter code']
 MIN_NONTRIVIAL = {'quick': 300, 'thorough': 30000}
 REQUIRED_MONITORS = ['totality:single_chars', 'totality:pairs', 'roundtrip:reads_decoded', 'roundtrip:fields_compared',
-                     'length:refused_loudly', 'length:stored_exactly', 'history:fitting_then_overlong_in_one_library', 'roundtrip:cell_index_zero', 'roundtrip:mates_digested_separately', 'roundtrip:alignment_with_preexisting_fields', 'roundtrip:umi_from_an_earlier_demultiplexing_run', 'roundtrip:numeric_index_with_leading_zeros']
+                     'length:refused_loudly', 'length:stored_exactly', 'history:fitting_then_overlong_in_one_library', 'roundtrip:cell_index_zero', 'roundtrip:mates_digested_separately', 'roundtrip:alignment_with_preexisting_fields', 'roundtrip:umi_from_an_earlier_demultiplexing_run', 'roundtrip:numeric_index_with_leading_zeros', 'roundtrip:raw_barcode_with_one_error']
 SHARD_TIMEOUT = {'quick': 600, 'thorough': 3600}
 PHRED_TAGS = {'QX', 'QT', 'RQ', 'BZ', 'QM', 'lq', 'aQ', 'AQ', 'E2', 'EQ', 'eq', 'is', 'H1', 'H3'}
 
@@ -92,7 +92,9 @@ def roundtrip(case, acc):
     from singlecellmultiomics.universalBamTagger.universalBamTagger import QueryNameFlagger
     name = case['strategy']
     r = rng(case['seed'], 'C04', case['kind'], name, case['rep'])
-    k = 0
+    # half of the round-trip cases demultiplex with one tolerated barcode mismatch: the raw barcode of a read then differs from the corrected one
+    k = (case['rep'] + __import__('zlib').crc32(name.encode())) % 2 if case['kind'] != 'length' else 0
+    case = dict(case, k=k)
     with Scratch('c04') as d:
         dmx, wl, iwl, bdir = get_env(d, r, k)
         strategy = dmx.getSelectedStrategiesFromStringList([name], verbose=False)[0]
@@ -150,7 +152,10 @@ def run_library(acc, d, dmx, strategy, name, wl, iwl, r, lib, n, single, case_id
         wl_here = wl.get(lay['alias'], [])
         if i == 0 and any(ix == 0 for _, ix in wl_here):
             wl_here = [(b, ix) for b, ix in wl_here if ix == 0]      # the cell with index 0 is always part of the library
-        p = fq.make_pair(r, lay, wl_here, 'good', ids[i] if ids else rid0 + i + 1, case_id, hdr_kind=base_kind, index_seq=index_seq,
+        kind_ = 'mm1' if (case.get('k') and i and r.random() < 0.35) else 'good'
+        if kind_ == 'mm1':
+            acc.count('roundtrip:raw_barcode_with_one_error')
+        p = fq.make_pair(r, lay, wl_here, kind_, ids[i] if ids else rid0 + i + 1, case_id, hdr_kind=base_kind, index_seq=index_seq,
                          qmax=93, p_n=0.0, single_end=single, needs=lay.get('needs'),
                          insert_len=[r.randint(20, 60), r.randint(20, 60)])
         p['lay'], p['hk'] = lay, hk
@@ -286,7 +291,7 @@ def run_library(acc, d, dmx, strategy, name, wl, iwl, r, lib, n, single, case_id
         rd = pair['reads']
         if lay['bc']:
             raw_bc = cat(rd, lay['bc'])[0]
-            near = fq.nearest(wl.get(lay['alias'], []), raw_bc, 0)
+            near = fq.nearest(wl.get(lay['alias'], []), raw_bc, case.get('k', 0))
             exp['bc'] = raw_bc
             if near:
                 exp['BC'] = near[1]
